@@ -244,55 +244,58 @@ def case_simplex(**p):
   case.meta.update(validation_points=done, validation_mismatch=mism, nodes=tr.n_nodes)
   replay = dict(fn='layer', params=p)
   tmo = p.get('timeout', 60)
-  all_case_conds = []
-  first = True
+  state = dict(first=True)
   for cellk in _cells_top(sizes):
     cell = tuple(c for c, _ in cellk)
     for order in itertools.permutations(range(rank)):
-      c = sym.new_ctx()
-      K = sym.symbolic('k', (n, units))
-      x, xin = _sym_inputs(p)
-      idx, xs = _points(x, p)[-1]
-      xc = _clipped(xs, sizes, p['clip'])
-      cell_conds = _cellk_conds(xs, xc, sizes, cellk, p['clip'])
-      res = [sym.s_sub(xc[d], cell[d]) for d in range(rank)]
-      conds = cell_conds + _order_assumption(res, list(order))
-      # every other point of the batch (units / extra batch dim) is pinned to the same case
-      for idx2, xs2 in _points(x, p)[:-1]:
-        xc2 = _clipped(xs2, sizes, p['clip'])
-        for d in range(rank):
-          conds.append(sym.EQ(xs2[d], xs[d]))
-      c.case_assumptions = [sym.b(t) for t in conds]
-      sv = z3.Solver()
-      sv.add(*c.case_assumptions)
-      if sv.check() == z3.unsat:
-        continue  # empty case (e.g. a 'top' coordinate cannot sort after a smaller residual)
-      (out,) = tr.sym_run(*xin, var_values={kvar.ref(): K})
-      case.meta['ops'] = tr.ops_seen
-      Kc = K.reshape(sizes + [units])
-      bad = []
-      for (i2, _) in _points(x, p):
-        u = i2[-1] if units > 1 else 0
-        ref = specs.simplex_in_cell(Kc[..., u], sizes, xc, list(cell), list(order))
-        o = out[i2] if units > 1 else out[i2 + (0,)]
-        bad.append(sym.NE(o, ref))
-      case.solve('simplex-identity[cell=%s,order=%s]' % (_ck(cellk), list(order)), core.any_of(bad),
-                 witness=dict(x=x, k=K), timeout=tmo, sig=dict(query='identity', interp='simplex'), replay=replay)
-      if first:
-        case.solve('twin:case-reachable', z3.BoolVal(True), expect='sat', kind='twin', timeout=30)
-        first = False
-      # agreement with multilinear interpolation on axis-parallel edges and vertices of the cell
-      for d0 in range(rank):
-        edge = [z3.Or(sym.EQ(res[d], 0), sym.EQ(res[d], 1)) for d in range(rank) if d != d0]
-        u = 0
-        ref_h = specs.hypercube_in_cell(Kc[..., u], sizes, xc, list(cell))
-        i2 = _points(x, p)[-1][0]
-        o = out[i2] if units > 1 else out[i2 + (0,)]
-        if units > 1:
-          ref_h = specs.hypercube_in_cell(Kc[..., i2[-1]], sizes, xc, list(cell))
-        case.solve('simplex-equals-hypercube-on-edges[cell=%s,order=%s,free=%d]' % (_ck(cellk), list(order), d0),
-                   sym.NE(o, ref_h), assumptions=edge, witness=dict(x=x, k=K), timeout=tmo,
-                   sig=dict(query='edges', interp='simplex'), replay=replay)
+
+      def build(extra, leaf, cellk=cellk, cell=cell, order=order):
+        c = sym.new_ctx()
+        K = sym.symbolic('k', (n, units))
+        x, xin = _sym_inputs(p)
+        idx, xs = _points(x, p)[-1]
+        xc = _clipped(xs, sizes, p['clip'])
+        cell_conds = _cellk_conds(xs, xc, sizes, cellk, p['clip'])
+        res = [sym.s_sub(xc[d], cell[d]) for d in range(rank)]
+        conds = cell_conds + _order_assumption(res, list(order))
+        # every other point of the batch (units / extra batch dim) is pinned to the same point
+        for idx2, xs2 in _points(x, p)[:-1]:
+          for d in range(rank):
+            conds.append(sym.EQ(xs2[d], xs[d]))
+        c.case_assumptions = [sym.b(t) for t in conds] + list(extra)
+        sv = z3.Solver()
+        sv.add(*c.case_assumptions)
+        if sv.check() == z3.unsat:
+          return  # empty case (e.g. a 'top' coordinate cannot sort after a smaller residual)
+        tag = '[cell=%s,order=%s%s]' % (_ck(cellk), list(order), ',leaf=' + leaf if leaf else '')
+        try:
+          (out,) = tr.sym_run(*xin, var_values={kvar.ref(): K})
+        except sym.Undefined as e:
+          case.solve('simplex-defined' + tag, z3.BoolVal(True), witness=dict(x=x, k=K), timeout=tmo,
+                     sig=dict(query='defined', interp='simplex', why=str(e)[:80]), replay=replay)
+          return
+        case.meta['ops'] = tr.ops_seen
+        Kc = K.reshape(sizes + [units])
+        bad = []
+        for (i2, _) in _points(x, p):
+          u = i2[-1] if units > 1 else 0
+          ref = specs.simplex_in_cell(Kc[..., u], sizes, xc, list(cell), list(order))
+          o = out[i2] if units > 1 else out[i2 + (0,)]
+          bad.append(sym.NE(o, ref))
+        case.solve('simplex-identity' + tag, core.any_of(bad), witness=dict(x=x, k=K), timeout=tmo,
+                   sig=dict(query='identity', interp='simplex'), replay=replay)
+        if state['first']:
+          case.solve('twin:case-reachable', z3.BoolVal(True), expect='sat', kind='twin', timeout=30)
+          state['first'] = False
+        # agreement with multilinear interpolation on axis-parallel edges and vertices of the cell
+        for d0 in range(rank):
+          edge = [z3.Or(sym.EQ(res[d], 0), sym.EQ(res[d], 1)) for d in range(rank) if d != d0]
+          i2 = _points(x, p)[-1][0]
+          o = out[i2] if units > 1 else out[i2 + (0,)]
+          ref_h = specs.hypercube_in_cell(Kc[..., i2[-1] if units > 1 else 0], sizes, xc, list(cell))
+          case.solve('simplex-equals-hypercube-on-edges%s[free=%d]' % (tag, d0), sym.NE(o, ref_h), assumptions=edge,
+                     witness=dict(x=x, k=K), timeout=tmo, sig=dict(query='edges', interp='simplex'), replay=replay)
+      core.split_run(build)
   # the cases partition the (clipped / in-range) input space
   sym.new_ctx()
   x, xin = _sym_inputs(p)
@@ -451,10 +454,13 @@ def replay(r):
   else:
     out = layer(tf.constant(x, tf.float32))
   layer.kernel.assign(K.astype(np.float32))
-  if p.get('list_input'):
-    out = layer([tf.constant(x[..., d:d + 1], tf.float32) for d in range(rank)])
-  else:
-    out = layer(tf.constant(x, tf.float32))
+  try:
+    if p.get('list_input'):
+      out = layer([tf.constant(x[..., d:d + 1], tf.float32) for d in range(rank)])
+    else:
+      out = layer(tf.constant(x, tf.float32))
+  except Exception as e:  # pylint: disable=broad-except
+    return dict(reproduced=True, detail=dict(real_code_raised=repr(e)[:300], x=x.tolist()))
   out = np.asarray(out, dtype=np.float64)
   # independent numeric reference
   Kc = K.reshape(sizes + [units])
